@@ -14,6 +14,7 @@ CONSTANTS MaxLen, MaxFaults, RICH, DECS, TOPLEN, PCTLEN
 VARIABLES dec, pos, toks, faults, nf
 vars == <<dec, pos, toks, faults, nf>>
 
+DeepOnTrue == TRUE
 AddFault(fs, f) == IF f = "" \/ \E i \in 1..Len(fs) : fs[i] = f THEN fs ELSE Append(fs, f)
 
 GInit == dec \in DECS /\ pos = Start(dec) /\ toks = <<>> /\ faults = <<>> /\ nf = 0
@@ -51,12 +52,12 @@ RECURSIVE UrlPairs(_, _)
 UrlPairs(s, st) == IF s = <<>> THEN st = "V"
                    ELSE CASE st = "K" -> IsKey(s[1]) /\ UrlPairs(Tail(s), "E")
                           [] st = "E" -> s[1] = "=" /\ UrlPairs(Tail(s), "V")
-                          [] OTHER -> IF s[1] = "&" THEN UrlPairs(Tail(s), "K") ELSE s[1] \in UVals(TRUE) /\ UrlPairs(Tail(s), "V")
+                          [] OTHER -> IF s[1] = "&" THEN UrlPairs(Tail(s), "K") ELSE s[1] \in UVals(TRUE) \cup {"DEEP:,", "DEEP:%41", "DEEP:&kz=1"} /\ UrlPairs(Tail(s), "V")
 RECURSIVE CookiePairs(_, _)
 CookiePairs(s, st) == IF s = <<>> THEN st = "V"
                       ELSE CASE st = "K" -> IsKey(s[1]) /\ CookiePairs(Tail(s), "E")
                              [] st = "E" -> s[1] = "=" /\ CookiePairs(Tail(s), "V")
-                             [] OTHER -> IF s[1] = "; " THEN CookiePairs(Tail(s), "K") ELSE s[1] \in CVals(TRUE) /\ CookiePairs(Tail(s), "V")
+                             [] OTHER -> IF s[1] = "; " THEN CookiePairs(Tail(s), "K") ELSE s[1] \in CVals(TRUE) \cup {"DEEP:; kz=1", "DEEP:%41"} /\ CookiePairs(Tail(s), "V")
 WellFormed == CASE dec = "urlenc" -> UrlPairs(toks, "K")
                 [] dec = "cookie" -> CookiePairs(toks, "K")
                 [] dec = "multipart" -> /\ Len(toks) >= 3 /\ toks[1] \in {"P:" \o h : h \in Heads}
